@@ -1044,6 +1044,15 @@ FUNCS = [
          sig='(c : config) (r : request) : outcome'),
 ]
 
+# every source function whose control flow is regenerated on every run (tools/coverage_map.py reads this)
+TRANSLATED = ['pyramid/util.py:is_same_domain'] + [
+    'pyramid/csrf.py:%s.%s' % (c, m)
+    for c in ('LegacySessionCSRFStoragePolicy', 'SessionCSRFStoragePolicy', 'CookieCSRFStoragePolicy')
+    for m in ('new_csrf_token', 'get_csrf_token', 'check_csrf_token')] + [
+    'pyramid/csrf.py:CookieCSRFStoragePolicy.new_csrf_token.set_cookie',    # body checked to be exactly the cookie delivery, then erased
+    'pyramid/csrf.py:check_csrf_token', 'pyramid/csrf.py:check_csrf_origin', 'pyramid/csrf.py:check_csrf_origin._fail',
+    'pyramid/viewderivers.py:csrf_view', 'pyramid/viewderivers.py:csrf_view.csrf_view']
+
 WANT_BINDINGS = {
     'pyramid/csrf.py': {
         'urlparse': 'from urllib.parse import urlparse', 'aslist': 'from pyramid.settings import aslist',
